@@ -6,6 +6,7 @@ from vlib import core, ntdrv
 from vlib.core import n2l
 
 INV = ["Factors", "Euler", "JacobiFacts", "InverseFacts"]
+ALG_INV = ["JacobiAlgRefines", "SqrtAlgRefines", "InverseAlgRefines", "PowModRefines", "PolyFacts", "OrderFacts"]
 
 
 def describe(e):
@@ -29,6 +30,9 @@ def run(ctx):
     quick = ctx.tier == "quick"
     rnd = random.Random(ctx.seed)
     ctx.add_tlc(core.tlc_or_die(ctx.workdir, "NTModel", ntdrv.model_cfg(60 if quick else 150, INV), tag="ntm", timeout=3000))
+    # (M) design layer: the transcribed algorithms of NTAlg.tla (binary Jacobi, the three square-root branches with polynomial
+    # arithmetic in F_p[x]/(x^2 - bx + a), extended Euclid) refine the definitions on every input below the bound
+    ctx.add_tlc(core.tlc_or_die(ctx.workdir, "NTModel", ntdrv.model_cfg(200 if quick else 400, ALG_INV), tag="ntalg", timeout=3000))
     events = []
     primes = ntdrv.small_primes(2000)
     # modular square root: EVERY a for every odd prime below the bound (each residue class of p)
@@ -146,6 +150,10 @@ def run(ctx):
                 except BaseException:  # noqa
                     out, ok = 0, False
                 events.append({"op": "big-jacobi2", "p": n2l(m), "t": t, "q": q, "out": out, "ok": ok})
+    # beyond the listed property (notes only): the polynomial arithmetic the square root is built on and the deprecated helpers
+    helpers = ntdrv.helper_events(nt, rnd, quick)
+    ctx.extra["helper_calls_checked"] = len(helpers)
+    events += helpers
     ntdrv.validate(ctx, events, describe)
     ctx.sample(events[0] if len(events[0].get("outs", [])) < 40 else {k: v for k, v in events[0].items() if k != "outs"})
     ctx.sample(core.compact(events[-1]))
